@@ -151,8 +151,12 @@ func (m *SpyMetastore) yield(op, id string) {
 	}
 }
 
-func (m *SpyMetastore) Load(_ context.Context, id string, created int64) (*ae.EnvelopeKeyRecord, error) {
+func (m *SpyMetastore) Load(cctx context.Context, id string, created int64) (*ae.EnvelopeKeyRecord, error) {
 	defer vsched.LockDoubles()()
+	if err := cctx.Err(); err != nil && !m.Mute {
+		m.log("ctx", id, 0, "error(context)")
+		return nil, err
+	}
 	m.yield("Load", id)
 	if m.fault("Load", 2) != FaultNone {
 		m.log("Load", id, created, "error")
@@ -179,8 +183,12 @@ func (m *SpyMetastore) Latest(id string) *Row {
 	return best
 }
 
-func (m *SpyMetastore) LoadLatest(_ context.Context, id string) (*ae.EnvelopeKeyRecord, error) {
+func (m *SpyMetastore) LoadLatest(cctx context.Context, id string) (*ae.EnvelopeKeyRecord, error) {
 	defer vsched.LockDoubles()()
+	if err := cctx.Err(); err != nil && !m.Mute {
+		m.log("ctx", id, 0, "error(context)")
+		return nil, err
+	}
 	m.yield("LoadLatest", id)
 	if m.fault("LoadLatest", 2) != FaultNone {
 		m.log("LoadLatest", id, 0, "error")
@@ -196,8 +204,12 @@ func (m *SpyMetastore) LoadLatest(_ context.Context, id string) (*ae.EnvelopeKey
 	return nil, nil
 }
 
-func (m *SpyMetastore) Store(_ context.Context, id string, created int64, rec *ae.EnvelopeKeyRecord) (bool, error) {
+func (m *SpyMetastore) Store(cctx context.Context, id string, created int64, rec *ae.EnvelopeKeyRecord) (bool, error) {
 	defer vsched.LockDoubles()()
+	if err := cctx.Err(); err != nil && !m.Mute {
+		m.log("ctx", id, created, "error(context)")
+		return false, err
+	}
 	m.yield("Store", id)
 	f := m.fault("Store", 4)
 	switch f {
